@@ -1,6 +1,8 @@
 package props
 
 import (
+	"io"
+	"log"
 	"os"
 	"time"
 	"bytes"
@@ -248,6 +250,40 @@ func checkC06(c C06Case) Verdict {
 				}
 				err = rd.Execute(&buf, toDataMap(c.Prog.Data))
 			})
+			if panicked == nil && err == nil || panicked == nil && hashCase(c)%3 == 0 {
+				// names that are no template of the bundle (misspelt, unqualified, empty, ...): an error,
+				// with the application's logger installed or not
+				saved := soyhtml.Logger
+				if hashCase(c)%2 == 0 {
+					soyhtml.Logger = log.New(io.Discard, "", 0)
+				}
+				defer func() { soyhtml.Logger = saved }()
+				last := c.Prog.Entry
+				if i := strings.LastIndex(last, "."); i >= 0 {
+					last = last[i+1:]
+				}
+				for _, name := range []string{"", last, "." + last, c.Prog.Entry + ".", c.Prog.Entry + "x", ".", "..", "no.such.template", "\x00", strings.Repeat("a.", 3000), c.Prog.Entry + " "} {
+					var nerr error
+					var nbuf bytes.Buffer
+					via := "NewRenderer(name).Execute"
+					pn := catch(func() {
+						if len(name)%2 == 0 {
+							nerr = cb.tofu.NewRenderer(name).Execute(&nbuf, toDataMap(c.Prog.Data))
+						} else {
+							via = "Tofu.Render"
+							nerr = cb.tofu.Render(&nbuf, name, nil)
+						}
+					})
+					if pn != nil {
+						panicked = fmt.Sprintf("%s with the name %q, which is no template of the bundle: %v", via, trunc(name, 60), pn)
+						return
+					}
+					if nerr == nil {
+						panicked = fmt.Sprintf("%s with the name %q, which is no template of the bundle, returned no error (wrote %q)", via, trunc(name, 60), trunc(nbuf.String(), 100))
+						return
+					}
+				}
+			}
 			if panicked == nil && c.Hostile > 0 {
 				obj := map[string]interface{}{}
 				for k, v := range c.Prog.Data {
